@@ -99,6 +99,7 @@ def sweep_lengths(tier, cap):
 
 
 def _drive(args):
+    isoc.ALLOW_UNENCODABLE = True
     seed, cfgspec, codec, kind, lo, hi = args
     bc = isocheck.get_config(cfgspec)
     alpha = isoc.alphabet(codec)
